@@ -115,7 +115,14 @@ def incremental_driver(cfg, T):
         n_ctor = cfg['n'] if cfg['form'] != 'required-only' else 1
         if getattr(ex, 'seen_samples', 0) != 0:
             bad('seen-samples', cfg, f"seen_samples is {ex.seen_samples} after construction")
-        obs = observations(names, T)
+        obs = observations(names, T + 1)
+        pre = obs[T:]
+        obs = obs[:T]
+        prefilled = []
+        if run.choose(2, 'warm-start-storage', None, 0):
+            # the storage is filled through the public update_storage before the first explain_one
+            ex.update_storage(dict(pre[0][0]), pre[0][1])
+            prefilled = [pre[0]]
         for t, (x, y) in enumerate(obs):
             opts = {}
             n_eff = n_ctor
@@ -169,7 +176,7 @@ def incremental_driver(cfg, T):
                     if e[0] == 'model':
                         for n in names:
                             v = e[1][n]
-                            if not (v == x[n]) and not any(v == ox[n] for ox, _ in obs[:t]):
+                            if not (v == x[n]) and not any(v == ox[n] for ox, _ in obs[:t] + prefilled):
                                 bad('foreign-value', cfg, f"{where}: model input {e[1]} has a value for {n!r} that is "
                                                           f"neither x's nor an earlier arrival's")
             if t >= 1:
